@@ -541,7 +541,7 @@ Qed.
 (* ------------------------------------------------------------------ *)
 (** * Footprints: a call on topology t touches only t's locations, the statics, and mutex-ordered globals *)
 
-Definition is_static_loc (l : loc) : bool := match l with LStChecked _ | LStValue _ => true | _ => false end.
+Definition is_static_loc (l : loc) : bool := match l with LStChecked _ | LStValue _ | LXmlBackend => true | _ => false end.
 Definition fp_ok (t : nat) (e : ev) : bool :=
   match loc_topo (e_loc e) with Some u => Nat.eqb u t | None => e_prot e || is_static_loc (e_loc e) end.
 Definition fp_all (t : nat) (es : list ev) : bool := forallb (fp_ok t) es.
@@ -702,7 +702,8 @@ Proof.
   pose proof (fp_static_use t SNolibxmlImport g) as P1. destruct (static_use SNolibxmlImport g) as [g1 e1].
   assert (P2 : fp_all t (snd (if g_libxml g then libxml_init_once g1 else (g1, []))) = true)
     by (destruct (g_libxml g); [apply fp_libxml_init | reflexivity]).
-  destruct (if g_libxml g then libxml_init_once g1 else (g1, [])) as [g2 e2]. cbn [snd] in *. fp_auto.
+  destruct (if g_libxml g then libxml_init_once g1 else (g1, [])) as [g2 e2]. cbn [snd] in *.
+  destruct (g_libxml g && c_enosys c); cbn [snd]; fp_auto.
 Qed.
 
 Lemma fp_run_op s o : fp_all (op_topo o) (snd (run_op s o)) = true.
@@ -712,7 +713,7 @@ Proof.
   - destruct (get_topo s t) as [tp|]; [|reflexivity]. destruct (t_loaded tp); [fp_simpl|].
     pose proof (fp_load_run t c) as P. destruct (load_run t c) as [tp' e].
     pose proof (fp_load_statics t c (s_glob s)) as P0. destruct (load_statics c (s_glob s)) as [g' e0].
-    cbn [snd] in *. fp_auto.
+    destruct (load_fails c (s_glob s)); cbn [snd] in *; fp_auto.
   - destruct (get_topo s t) as [tp|]; [|reflexivity]. cbn [snd].
     destruct (g_users (s_glob s) =? 1); fp_auto.
   - destruct (get_topo s t) as [tp|]; [|reflexivity].
@@ -893,3 +894,221 @@ Qed.
 
 Lemma race_b_true_not_free il : race_b il = true -> ~ race_free il.
 Proof. intros H F. apply race_b_false_iff in F. congruence. Qed.
+
+(* ------------------------------------------------------------------ *)
+(** * A thread's results do not depend on the other threads' histories
+      (distinct topologies, and nobody writes a process-wide static after its first use) *)
+
+Lemma nth_error_set_slot_same l : forall t x, nth_error (set_slot l t x) t = Some x.
+Proof. intros t; revert l. induction t as [|t IH]; intros [|y r] x; simpl; try reflexivity; apply IH. Qed.
+
+Definition get_slot (l : list (option topo)) (u : nat) : option topo :=
+  match nth_error l u with Some (Some tp) => Some tp | _ => None end.
+
+Lemma get_slot_set_slot_other : forall t l u x, t <> u -> get_slot (set_slot l t x) u = get_slot l u.
+Proof.
+  unfold get_slot. induction t as [|t IH]; intros [|y r] [|u] x N; simpl; try congruence; try reflexivity.
+  - destruct u; reflexivity.
+  - rewrite (IH [] u x) by congruence. destruct u; reflexivity.
+  - apply IH. congruence.
+Qed.
+
+Lemma get_topo_state l g u : get_topo (mkState l g) u = get_slot l u.
+Proof. reflexivity. Qed.
+Lemma get_topo_slot s u : get_topo s u = get_slot (s_topos s) u.
+Proof. reflexivity. Qed.
+
+Lemma get_slot_set_slot_same l t x : get_slot (set_slot l t x) t = x.
+Proof. unfold get_slot. rewrite nth_error_set_slot_same. destruct x; reflexivity. Qed.
+
+(* a call only changes the slot of its own topology *)
+Lemma run_op_other_slot s o u : u <> op_topo o -> get_topo (fst (fst (run_op s o))) u = get_topo s u.
+Proof.
+  intro N. destruct o as [t|t c|t|t m|t c]; cbn [run_op op_topo] in *.
+  - destruct (get_topo s t); [reflexivity|]. cbn [fst]. rewrite get_topo_state, get_topo_slot. apply get_slot_set_slot_other. congruence.
+  - destruct (get_topo s t) as [tp|]; [|reflexivity]. destruct (t_loaded tp); [reflexivity|].
+    destruct (load_statics c (s_glob s)) as [g' e0]. destruct (load_fails c (s_glob s)); [reflexivity|].
+    destruct (load_run t c) as [tp' e]. cbn [fst]. rewrite get_topo_state, get_topo_slot. apply get_slot_set_slot_other. congruence.
+  - destruct (get_topo s t) as [tp|]; [|reflexivity]. cbn [fst]. rewrite get_topo_state, get_topo_slot. apply get_slot_set_slot_other. congruence.
+  - destruct (get_topo s t) as [tp|]; [|reflexivity]. destruct (mod_run t tp m) as [[tp' r] e]. cbn [fst].
+    rewrite get_topo_state, get_topo_slot. apply get_slot_set_slot_other. congruence.
+  - destruct (get_topo s t) as [tp|]; [|reflexivity]. destruct (t_loaded tp); [|reflexivity].
+    destruct (cons_run t tp (s_glob s) c) as [[[tp' g'] r] e]. cbn [fst].
+    rewrite get_topo_state, get_topo_slot. apply get_slot_set_slot_other. congruence.
+Qed.
+
+(* what the statics helpers leave alone *)
+Definition same_backend (g g' : glob) : Prop := g_libxml g' = g_libxml g /\ g_avail g' = g_avail g.
+
+Lemma static_use_backend s g : same_backend g (fst (static_use s g)).
+Proof. unfold static_use. destruct (mem_static s (g_checked g)); split; reflexivity. Qed.
+
+Lemma libxml_init_backend g : same_backend g (fst (libxml_init_once g)).
+Proof.
+  unfold libxml_init_once. destruct (mem_static SLibxmlInit (g_checked g)); [split; reflexivity|].
+  pose proof (static_use_backend SXmlVerbose g) as [A B]. destruct (static_use SXmlVerbose g) as [g1 e1]. cbn [fst] in *.
+  split; assumption.
+Qed.
+
+Lemma cons_run_backend t tp g c : same_backend g (snd (fst (fst (cons_run t tp g c)))).
+Proof.
+  destruct c as [| | | | |q a| | | | | |[|]]; cbn [cons_run]; try (split; reflexivity).
+  - destruct (dists_refresh t (t_dists tp)) as [ds e]. split; reflexivity.
+  - destruct (nth_error (t_mattrs tp) a) as [m|]; [|split; reflexivity]. destruct (a_conv m); [split; reflexivity|].
+    destruct (ma_refresh_one t a m) as [m' e]. split; reflexivity.
+  - destruct (dists_refresh t (t_dists tp)) as [ds e1].
+    pose proof (static_use_backend SNolibxmlExport g) as [A B]. destruct (static_use SNolibxmlExport g) as [g1 e2]. cbn [fst] in *.
+    assert (X : same_backend g (fst (if g_libxml g then libxml_init_once g1 else (g1, [])))).
+    { destruct (g_libxml g) eqn:LX; [|split; cbn [fst]; congruence].
+      pose proof (libxml_init_backend g1) as [A2 B2]. split; congruence. }
+    destruct (if g_libxml g then libxml_init_once g1 else (g1, [])) as [g2 e3]. exact X.
+  - destruct (mem_static SSynthWarned (g_checked g)); split; reflexivity.
+Qed.
+
+Lemma load_statics_backend c g : negb (c_xml c && c_enosys c) = true -> same_backend g (fst (load_statics c g)).
+Proof.
+  intro H. unfold load_statics. destruct (c_xml c) eqn:X; [|split; reflexivity].
+  simpl in H. apply negb_true_iff in H. rewrite H, andb_false_r.
+  pose proof (static_use_backend SNolibxmlImport g) as [A B]. destruct (static_use SNolibxmlImport g) as [g1 e1]. cbn [fst] in *.
+  assert (Y : same_backend g (fst (if g_libxml g then libxml_init_once g1 else (g1, [])))).
+  { destruct (g_libxml g) eqn:LX; [|split; cbn [fst]; congruence].
+    pose proof (libxml_init_backend g1) as [A2 B2]. split; congruence. }
+  destruct (if g_libxml g then libxml_init_once g1 else (g1, [])) as [g2 e2]. exact Y.
+Qed.
+
+(* a backend-stable call keeps "the backend in use is the registered one" *)
+Lemma run_op_consistent s o :
+  backend_stable o = true -> glob_consistent (s_glob s) ->
+  glob_consistent (s_glob (fst (fst (run_op s o)))) /\ g_avail (s_glob (fst (fst (run_op s o)))) = g_avail (s_glob s).
+Proof.
+  unfold glob_consistent. intros St Cg. destruct o as [t|t c|t|t m|t c]; cbn [run_op backend_stable] in *.
+  - destruct (get_topo s t); [split; [exact Cg | reflexivity]|]. cbn. destruct (g_users (s_glob s) =? 0); split; auto.
+  - destruct (get_topo s t) as [tp|]; [|split; [exact Cg | reflexivity]]. destruct (t_loaded tp); [split; [exact Cg | reflexivity]|].
+    pose proof (load_statics_backend c (s_glob s) St) as [A B]. destruct (load_statics c (s_glob s)) as [g' e0]. cbn [fst] in *.
+    destruct (load_fails c (s_glob s)); [cbn; split; congruence|].
+    destruct (load_run t c) as [tp' e]. cbn. split; congruence.
+  - destruct (get_topo s t) as [tp|]; [|split; [exact Cg | reflexivity]]. cbn. destruct (g_users (s_glob s) =? 1); split; auto.
+  - destruct (get_topo s t) as [tp|]; [|split; [exact Cg | reflexivity]]. destruct (mod_run t tp m) as [[tp' r] e]. cbn. split; [exact Cg | reflexivity].
+  - destruct (get_topo s t) as [tp|]; [|split; [exact Cg | reflexivity]]. destruct (t_loaded tp); [|split; [exact Cg | reflexivity]].
+    pose proof (cons_run_backend t tp (s_glob s) c) as [A B].
+    destruct (cons_run t tp (s_glob s) c) as [[[tp' g'] r] e]. cbn in *. split; congruence.
+Qed.
+
+(* the topology and the result a consulting call produces do not depend on the process-wide part *)
+Lemma cons_run_local t tp g g' c :
+  fst (fst (fst (cons_run t tp g c))) = fst (fst (fst (cons_run t tp g' c))) /\
+  snd (fst (cons_run t tp g c)) = snd (fst (cons_run t tp g' c)).
+Proof.
+  destruct c as [| | | | |q a| | | | | |[|]]; cbn [cons_run]; try (split; reflexivity).
+  - destruct (dists_refresh t (t_dists tp)) as [ds e]. split; reflexivity.
+  - destruct (nth_error (t_mattrs tp) a) as [m|]; [|split; reflexivity]. destruct (a_conv m); [split; reflexivity|].
+    destruct (ma_refresh_one t a m) as [m' e]. split; reflexivity.
+  - destruct (dists_refresh t (t_dists tp)) as [ds e1].
+    destruct (static_use SNolibxmlExport g) as [g1 e2]. destruct (static_use SNolibxmlExport g') as [g1' e2'].
+    destruct (if g_libxml g then libxml_init_once g1 else (g1, [])) as [g2 e3].
+    destruct (if g_libxml g' then libxml_init_once g1' else (g1', [])) as [g2' e3']. split; reflexivity.
+  - destruct (mem_static SSynthWarned (g_checked g)); destruct (mem_static SSynthWarned (g_checked g')); split; reflexivity.
+Qed.
+
+(* the result of a call and the new value of its slot depend only on that slot and on the backend in use *)
+Lemma run_op_local s s' o :
+  get_topo s (op_topo o) = get_topo s' (op_topo o) -> g_libxml (s_glob s) = g_libxml (s_glob s') ->
+  snd (fst (run_op s o)) = snd (fst (run_op s' o)) /\
+  get_topo (fst (fst (run_op s o))) (op_topo o) = get_topo (fst (fst (run_op s' o))) (op_topo o).
+Proof.
+  intros Ht Hl. destruct o as [t|t c|t|t m|t c]; cbn [run_op op_topo] in *; rewrite <- Ht.
+  - destruct (get_topo s t) eqn:G; [cbn [fst snd]; split; [reflexivity | congruence]|]. cbn [fst snd].
+    rewrite !get_topo_state, !get_slot_set_slot_same. split; reflexivity.
+  - destruct (get_topo s t) as [tp|] eqn:G; [|cbn [fst snd]; split; [reflexivity | congruence]].
+    destruct (t_loaded tp); [cbn [fst snd]; split; [reflexivity | congruence]|].
+    assert (F : load_fails c (s_glob s) = load_fails c (s_glob s')) by (unfold load_fails; rewrite Hl; reflexivity).
+    rewrite <- F.
+    destruct (load_statics c (s_glob s)) as [g1 e1]. destruct (load_statics c (s_glob s')) as [g1' e1'].
+    destruct (load_fails c (s_glob s)).
+    + cbn [fst snd]. rewrite !get_topo_state. split; [reflexivity|]. rewrite <- !get_topo_slot. congruence.
+    + destruct (load_run t c) as [tp' e]. cbn [fst snd]. rewrite !get_topo_state, !get_slot_set_slot_same. split; reflexivity.
+  - destruct (get_topo s t) as [tp|] eqn:G; [|cbn [fst snd]; split; [reflexivity | congruence]]. cbn [fst snd].
+    rewrite !get_topo_state, !get_slot_set_slot_same. split; reflexivity.
+  - destruct (get_topo s t) as [tp|] eqn:G; [|cbn [fst snd]; split; [reflexivity | congruence]].
+    destruct (mod_run t tp m) as [[tp' r] e]. cbn [fst snd]. rewrite !get_topo_state, !get_slot_set_slot_same. split; reflexivity.
+  - destruct (get_topo s t) as [tp|] eqn:G; [|cbn [fst snd]; split; [reflexivity | congruence]].
+    destruct (t_loaded tp); [|cbn [fst snd]; split; [reflexivity | congruence]].
+    pose proof (cons_run_local t tp (s_glob s) (s_glob s') c) as [A B].
+    destruct (cons_run t tp (s_glob s) c) as [[[tp1 g1] r1] e1]. destruct (cons_run t tp (s_glob s') c) as [[[tp2 g2] r2] e2].
+    cbn [fst snd] in *. subst. rewrite !get_topo_state, !get_slot_set_slot_same. split; reflexivity.
+Qed.
+
+(* the concurrent state [sc] and the state [sa] of thread t0 running alone agree on t0's topologies [A]
+   and both use the registered backend *)
+Definition rel (A : list nat) (sc sa : state) : Prop :=
+  (forall t, In t A -> get_topo sc t = get_topo sa t) /\
+  glob_consistent (s_glob sc) /\ glob_consistent (s_glob sa) /\ g_avail (s_glob sc) = g_avail (s_glob sa).
+
+Lemma rel_own A sc sa o :
+  rel A sc sa -> In (op_topo o) A -> backend_stable o = true ->
+  snd (fst (run_op sc o)) = snd (fst (run_op sa o)) /\ rel A (fst (fst (run_op sc o))) (fst (fst (run_op sa o))).
+Proof.
+  intros [R1 [R2 [R3 R4]]] Hin St.
+  assert (Hl : g_libxml (s_glob sc) = g_libxml (s_glob sa)) by (unfold glob_consistent in *; congruence).
+  pose proof (run_op_local sc sa o (R1 _ Hin) Hl) as [L1 L2].
+  pose proof (run_op_consistent sc o St R2) as [C1 C2]. pose proof (run_op_consistent sa o St R3) as [D1 D2].
+  split; [exact L1|]. split; [|split; [exact C1 | split; [exact D1 | congruence]]].
+  intros t Ht. destruct (Nat.eq_dec t (op_topo o)) as [E|N]; [subst; exact L2|].
+  rewrite !run_op_other_slot by exact N. apply R1. exact Ht.
+Qed.
+
+Lemma rel_other A sc sa o :
+  rel A sc sa -> ~ In (op_topo o) A -> backend_stable o = true -> rel A (fst (fst (run_op sc o))) sa.
+Proof.
+  intros [R1 [R2 [R3 R4]]] Hnin St. pose proof (run_op_consistent sc o St R2) as [C1 C2].
+  split; [|split; [exact C1 | split; [exact R3 | congruence]]].
+  intros t Ht. rewrite run_op_other_slot; [apply R1; exact Ht|]. intro E. subst. contradiction.
+Qed.
+
+Lemma results_of_step s o r :
+  results_of s (o :: r) = snd (fst (run_op s o)) :: results_of (fst (fst (run_op s o))) r.
+Proof.
+  unfold results_of. simpl. destruct (run_op s o) as [[s1 x] e1]. cbn [fst snd]. destruct (run_prog s1 r) as [[s2 xs] e2]. reflexivity.
+Qed.
+
+Theorem results_independent_of_other_threads t0 A :
+  forall sched progs sc sa,
+    rel A sc sa ->
+    (forall o, In o (nth t0 progs []) -> In (op_topo o) A /\ backend_stable o = true) ->
+    (forall u o, u <> t0 -> In o (nth u progs []) -> ~ In (op_topo o) A /\ backend_stable o = true) ->
+    results_of_thread t0 (snd (run_sched sc progs sched)) =
+      firstn (count_occ Nat.eq_dec sched t0) (results_of sa (nth t0 progs [])).
+Proof.
+  induction sched as [|u r IH]; intros progs sc sa R Hown Hoth; simpl; [reflexivity|].
+  destruct (nth u progs []) as [|o rest] eqn:E.
+  - rewrite (IH progs sc sa R Hown Hoth). destruct (Nat.eq_dec u t0) as [Eq|Ne]; [|reflexivity].
+    subst u. rewrite E. unfold results_of. simpl. destruct (count_occ Nat.eq_dec r t0); reflexivity.
+  - assert (NE : nth u progs [] <> []) by (rewrite E; discriminate).
+    destruct (Nat.eq_dec u t0) as [Eq|Ne].
+    + subst u. destruct (Hown o) as [Ho1 Ho2]; [rewrite E; left; reflexivity|].
+      pose proof (rel_own A sc sa o R Ho1 Ho2) as [X1 X2].
+      assert (N1 : nth t0 (replace_nth t0 rest progs) [] = rest) by (apply nth_replace_nth_same; exact NE).
+      assert (Hown' : forall o', In o' (nth t0 (replace_nth t0 rest progs) []) -> In (op_topo o') A /\ backend_stable o' = true).
+      { intros o' H'. rewrite N1 in H'. apply Hown. rewrite E. right. exact H'. }
+      assert (Hoth' : forall u' o', u' <> t0 -> In o' (nth u' (replace_nth t0 rest progs) []) -> ~ In (op_topo o') A /\ backend_stable o' = true).
+      { intros u' o' Nu H'. rewrite nth_replace_nth_other in H' by exact Nu. apply (Hoth u' o' Nu H'). }
+      specialize (IH (replace_nth t0 rest progs) (fst (fst (run_op sc o))) (fst (fst (run_op sa o))) X2 Hown' Hoth').
+      rewrite N1 in IH. rewrite E, results_of_step.
+      destruct (run_op sc o) as [[s1 x] e1]. cbn [fst snd] in *.
+      destruct (run_sched s1 (replace_nth t0 rest progs) r) as [s2 xs]. cbn [snd] in *.
+      unfold results_of_thread in *. simpl. rewrite Nat.eqb_refl. simpl. rewrite IH, X1. reflexivity.
+    + destruct (Hoth u o Ne) as [Ho1 Ho2]; [rewrite E; left; reflexivity|].
+      pose proof (rel_other A sc sa o R Ho1 Ho2) as X.
+      assert (N1 : nth t0 (replace_nth u rest progs) [] = nth t0 progs []) by (apply nth_replace_nth_other; congruence).
+      assert (Hown' : forall o', In o' (nth t0 (replace_nth u rest progs) []) -> In (op_topo o') A /\ backend_stable o' = true).
+      { intros o' H'. rewrite N1 in H'. apply Hown. exact H'. }
+      assert (Hoth' : forall u' o', u' <> t0 -> In o' (nth u' (replace_nth u rest progs) []) -> ~ In (op_topo o') A /\ backend_stable o' = true).
+      { intros u' o' Nu H'. destruct (Nat.eq_dec u' u) as [Eu|Nu'].
+        - subst u'. rewrite nth_replace_nth_same in H' by exact NE. apply (Hoth u o' Nu). rewrite E. right. exact H'.
+        - rewrite nth_replace_nth_other in H' by exact Nu'. apply (Hoth u' o' Nu H'). }
+      specialize (IH (replace_nth u rest progs) (fst (fst (run_op sc o))) sa X Hown' Hoth').
+      rewrite N1 in IH.
+      destruct (run_op sc o) as [[s1 x] e1]. cbn [fst snd] in *.
+      destruct (run_sched s1 (replace_nth u rest progs) r) as [s2 xs]. cbn [snd] in *.
+      unfold results_of_thread in *. simpl. apply Nat.eqb_neq in Ne. rewrite Ne. exact IH.
+Qed.
